@@ -261,6 +261,43 @@ def extra_scripts():
     return out
 
 
+def apalache_inductive(ck):
+    """Unbounded in the inputs: the inductive invariant 0 <= evlen < CAP /\\ no nested flush of
+    RtStreamInd (same arithmetic module RtArith) for the real capacity and EVERY jumbo size (symbolic
+    integer), discharged by Apalache; the arithmetic of the pinned commit must be refuted."""
+    import subprocess
+    d = core.mkscratch("apa")
+    try:
+        for f in ("RtArith.tla", "RtStreamInd.tla"):
+            shutil.copy(os.path.join(core.SPEC, f), d)
+        runs = [("base", ["--cinit=ConstInit", "--init=Init", "--inv=IndInv", "--length=0"], True),
+                ("step", ["--cinit=ConstInit", "--init=IndInit", "--inv=IndInv", "--length=1"], True),
+                ("step, arithmetic of the pinned commit (must fail)",
+                 ["--cinit=ConstInitNeg", "--init=IndInit", "--inv=IndInv", "--length=1"], False)]
+        notes = []
+        for name, args, want_ok in runs:
+            try:
+                p = subprocess.run(["apalache-mc", "check", "--out-dir=" + os.path.join(d, "out")] + args +
+                                   ["RtStreamInd.tla"], cwd=d, stdout=subprocess.PIPE, stderr=subprocess.STDOUT,
+                                   text=True, timeout=900)
+            except (subprocess.TimeoutExpired, OSError) as ex:
+                notes.append({"obligation": name, "result": "not run: %r" % (ex,)})
+                continue
+            ok = "EXITCODE: OK" in p.stdout
+            bad = "violated" in p.stdout or "Checker has found an error" in p.stdout
+            notes.append({"obligation": name, "result": "ok" if ok else ("refuted" if bad else "error")})
+            if want_ok and bad:
+                ck.violation("inductive invariant of the buffer arithmetic refuted by Apalache (%s)" % name,
+                             {"apalache.out": p.stdout[-6000:]}, sig="apalache")
+            elif want_ok and not ok:
+                raise core.MachineryError("apalache failed on %s:\n%s" % (name, p.stdout[-2000:]))
+            elif not want_ok and not bad:
+                raise core.MachineryError("apalache no longer refutes the unfixed arithmetic:\n%s" % p.stdout[-2000:])
+        ck.notes["apalache_inductive_invariant"] = notes
+    finally:
+        shutil.rmtree(d, ignore_errors=True)
+
+
 def main(pid, tier):
     level = "model_checking"
     ck = core.Check(pid, level, tier)
@@ -292,6 +329,8 @@ def main(pid, tier):
         raise core.MachineryError("negative configuration RtStreamAbs_Neg no longer fails")
 
     ck.phase('tlc')
+    apalache_inductive(ck)
+    ck.phase('apalache')
     # ---- conformance
     win, rw = scripts_from_window(tier, rng)
     walks, rg = scripts_from_walks(120 if tier == "quick" else 2000, rng)
